@@ -6,8 +6,9 @@ Streams
                    oracle: None, or the normalised result is still inside the normalised base
   static-files     send_from_directory and SharedDataMiddleware over a real temporary tree with sentinel
                    files outside the root; request paths percent-decoded as the dev server does;
-                   model prediction = safeJoin + the file system; oracle: sentinel never served, 200 only
-                   with the content of a file inside the root
+                   model prediction = Model.StaticFiles (sendFromDirectory / sharedData: safe_join, export
+                   matching, 404) with the existing files as the opaque isfile predicate; oracle: sentinel
+                   never served, 200 only with the content of a file inside the root
   secure-filename  werkzeug.utils.secure_filename vs Model.Paths.secureAscii (NFKD/ascii fold computed here
                    with unicodedata exactly as the code does); oracle: charset, no leading dot, idempotent
 """
@@ -22,6 +23,7 @@ import shutil
 import unicodedata
 from urllib.parse import quote, unquote
 
+from harness.pyprelude import PreludeKernels
 from vlib.core import Check, Stream, hs, line, opt, unhs
 
 # ---------------------------------------------------------------------------
@@ -540,15 +542,16 @@ class SecureFilename(Stream):
 
 CHECK = Check(
     prop="C14",
-    gen=["Paths"],
-    modules=["WzVerif.Props.C14"],
-    streams=[NormpathKernel(), SafeJoin(), StaticFiles(), SecureFilename()],
+    gen=["Paths", "PyFns_Paths"],
+    modules=["WzVerif.Props.C14", "WzVerif.Props.C14T"],
+    streams=[NormpathKernel(), SafeJoin(), StaticFiles(), SecureFilename(), PreludeKernels()],
     assumptions=[
         "POSIX path semantics (posixpath; os.sep == '/', os.path.altsep is None): _os_alt_seps is regenerated and the containment theorem is proved for an arbitrary alternative-separator list, but ntpath joining is not modelled",
         "posixpath.normpath / join are hand-modelled from CPython 3.12 and validated by stream normpath-kernel, not verified",
         "unicodedata.normalize('NFKD', .) is an opaque parameter of the secure_filename model; the only law used (idempotence theorem) is that it is the identity on ASCII text; the harness computes the fold with unicodedata exactly as the code does",
-        "the file system (os.path.isfile, open) is outside the model: stream static-files completes the model's joined path with the real file system; symbolic links inside the root are out of scope (safe_join is purely lexical)",
+        "the file system is outside the model: os.path.isfile enters Model/StaticFiles.lean as an arbitrary predicate (theorem served_path_inside_root holds for every such predicate); stream static-files passes the list of existing regular files; symbolic links inside the root are out of scope (safe_join is purely lexical)",
         "containment is lexical: 'inside' means the segments of normpath(result) extend the segments of normpath(base) without '..' and with the same root ('', '/', '//')",
+        "safe_join is regenerated from the source by tools/py2lean.py (Gen/PyFns_Paths.lean) on every run and proved equal to the hand model safeJoinWith for all inputs (Props/C14T, containment restated on the translated definition); posixpath.normpath/join/isabs stay the hand models, the other CPython primitives the translated code calls are modelled in Util/PyPrelude.lean and validated by stream prelude-kernels",
     ],
     trusted_extra=["CPython posixpath / str.split / str.strip / re semantics for the modelled primitives (validated by the streams, not verified)"],
     quick_budget=4000,
